@@ -623,6 +623,10 @@ func writeEvidence(p *Prog, run *checkRun, prop, tier string, records []obRecord
 	for key, ct := range p.contracts {
 		if ct.Trusted {
 			assumptions = append(assumptions, "trusted contract (not verified against a body): "+key)
+		} else {
+			for _, c := range ct.Assumed {
+				assumptions = append(assumptions, "assumed clause of a verified function (callers rely on it, not verified against the body): "+key+"/"+c.Label)
+			}
 		}
 	}
 	for _, lp := range p.leanProofs {
